@@ -205,6 +205,14 @@ def teval(t: Term, env: dict):
             raise
         except Exception as e:
             raise Unknown(f"{op}: {e}")
+    if op in ("call:all", "call:any") and len(a) == 1:
+        try:
+            vals_ = list(ev(a[0]))
+        except Unknown:
+            raise
+        except Exception as e:
+            raise Unknown(f"{op}: {e}")
+        return all(vals_) if op == "call:all" else any(vals_)
     if op in ("call:re.match", "call:re.fullmatch", "call:re.search") and len(a) >= 2:
         import re as _re
         try:
